@@ -27,7 +27,9 @@ func exhaustiveSets(depth int) [][]string {
 		// closing the shim (refused while locked; afterwards every request fails)
 		"close",
 		// a listing / removal that fails under every operation that needs one
-		"signers!fail:list", "sign=k1!fail:list", "sign=" + c1 + "!fail:list", "remove=k1!fail:remove", "remove=" + c1 + "!fail:remove", "remove=" + c1 + "!fail:list", "sign=k1!fail:sign"}
+		"signers!fail:list", "sign=k1!fail:list", "sign=" + c1 + "!fail:list", "remove=k1!fail:remove", "remove=" + c1 + "!fail:remove", "remove=" + c1 + "!fail:list", "sign=k1!fail:sign",
+		// add-hardware-certificate without a key
+		"addhard=k0=-"}
 	starts := []string{"-", "k1:-", "k1:-," + c1 + ":63", "k1:-," + c2 + ":-,k2:6b"}
 	var seqs [][]string
 	var rec func(prefix []string)
